@@ -36,6 +36,8 @@ func init() {
 		Doc: "the ordering cursor advances whenever the seen-set is reset", Run: runMergeCursor})
 	reg(&core.RuleInfo{Name: "DEC-NILACC", Props: []string{"C10"}, Engine: "PROV", Floor: 1, Confirmed: 10,
 		Doc: "decoded slices are not nil-started accumulators (empty ≠ null on re-encode)", Run: runDecNilAcc})
+	reg(&core.RuleInfo{Name: "FRESH-ITER", Props: []string{"C02", "C03", "C10"}, Engine: "ALIAS", Floor: 1, Confirmed: 2,
+		Doc: "a container stored per loop iteration into another container is allocated in that iteration (no entry shares a mutable set with another)", Run: runFreshIter})
 	reg(&core.RuleInfo{Name: "STATE-CALLERS", Props: []string{"C08", "C09"}, Engine: "CG", Floor: 6, Confirmed: 9,
 		Doc: "each merge-state mutator is called only by the handler of its own message type", Run: runStateCallers})
 }
@@ -806,5 +808,104 @@ func runOneCS(c *core.Ctx) {
 		}
 		c.Check(len(pts) >= 1 && len(twice) == 0, guardProps(t), fname(c, fn), "critical-sections", P.Pos(fn.Pos()), fmt.Sprintf("%d acquisition point(s), at most one on any path: the whole operation is one critical section", len(pts)),
 			fmt.Sprintf("the operation can pass through two critical sections on one path (%s): a check made under one and acted upon under the next is not atomic — a concurrent operation can run in between, so results need not correspond to any sequential order", strings.Join(twice, "; ")))
+	}
+}
+
+// ---------------------------------------------------------------- FRESH-ITER
+
+// FRESH-ITER: inside a loop, a map/slice value stored as an element of
+// another container (m[k] = set, xs[i] = set, xs = append(xs, set)) must not
+// be a container that was allocated OUTSIDE the loop and is filled INSIDE it:
+// every entry would then share one growing set (the per-tag value sets of a
+// filter, the per-condition candidate sets of the index, the decoded tag
+// lists of an event).
+func runFreshIter(c *core.Ctx) {
+	P := c.P
+	propOf := func(fn *ssa.Function) []string {
+		file := P.Pos(fn.Pos())
+		switch {
+		case strings.HasPrefix(file, "event_matcher.go"):
+			return []string{"C02"}
+		case strings.HasPrefix(file, "event_cache.go"):
+			return []string{"C03"}
+		case strings.HasPrefix(file, "message.go"):
+			return []string{"C10"}
+		}
+		return nil
+	}
+	isContainer := func(t types.Type) bool {
+		switch t.Underlying().(type) {
+		case *types.Map, *types.Slice:
+			return true
+		}
+		return false
+	}
+	n := 0
+	for _, fn := range P.ModFuncs {
+		props := propOf(fn)
+		if props == nil || len(fn.Blocks) == 0 {
+			continue
+		}
+		// containers of fn that are written to, by block
+		mutatedIn := map[ssa.Value][]*ssa.BasicBlock{}
+		an.Instrs(fn, func(in ssa.Instruction) {
+			var target ssa.Value
+			switch x := in.(type) {
+			case *ssa.MapUpdate:
+				target = x.Map
+			case *ssa.Store:
+				if ia, ok := x.Addr.(*ssa.IndexAddr); ok {
+					target = ia.X
+				}
+			}
+			if target == nil {
+				return
+			}
+			for _, src := range an.Sources(fn, target) {
+				if an.IsLocalRoot(src) {
+					mutatedIn[src] = append(mutatedIn[src], in.Block())
+				}
+			}
+		})
+		check := func(in ssa.Instruction, stored ssa.Value, what string) {
+			if !isContainer(stored.Type()) {
+				return
+			}
+			h := an.LoopHeaderOf(in.Block())
+			if h == nil {
+				return
+			}
+			loop := an.LoopBlocks(h)
+			n++
+			c.CountSites(1)
+			var shared []string
+			for _, src := range an.Sources(fn, stored) {
+				alloc, ok := src.(ssa.Instruction)
+				if !ok || !an.IsLocalRoot(src) || loop[alloc.Block()] {
+					continue
+				}
+				for _, mb := range mutatedIn[src] {
+					if loop[mb] {
+						shared = append(shared, fmt.Sprintf("%s allocated at %s outside the loop and filled inside it", an.PathOf(src), P.Pos(alloc.Pos())))
+						break
+					}
+				}
+			}
+			c.Check(len(shared) == 0, props, fname(c, fn), what, P.Pos(in.Pos()), "the stored container is allocated in the iteration that stores it",
+				"every iteration stores the same container: "+strings.Join(shared, "; ")+" — all entries alias one set, so a value listed for one key is accepted for every key")
+		}
+		an.Instrs(fn, func(in ssa.Instruction) {
+			switch x := in.(type) {
+			case *ssa.MapUpdate:
+				check(in, x.Value, "map-entry "+clip(an.PathOf(x.Map), 40))
+			case *ssa.Store:
+				if ia, ok := x.Addr.(*ssa.IndexAddr); ok {
+					check(in, x.Val, "element "+clip(an.PathOf(ia.X), 40))
+				}
+			}
+		})
+	}
+	if n == 0 {
+		c.NoAnchor(nil, "containers stored into containers inside loops (matcher constructor, index, decoders)")
 	}
 }
